@@ -381,6 +381,24 @@ theorem fallback_order (n : String) :
     (e.vendored n = false → hasDigit n = false → n ≠ "GMT" → n ≠ "UTC" → n ∉ e.tzname → fallback e n = .none) := by
   refine ⟨?_, ?_, ?_, ?_, ?_, ?_⟩ <;> intros <;> simp_all [fallback]
 
+/-- a name with a digit that is no loadable file under any search directory, is not in the vendored
+database and parses as a TZ string gives `tzstr(name)` -/
+theorem resolve_tzstr {name : Option String} {s : String} (h : effectiveName e name = some s)
+    (h1 : s ≠ "") (h2 : s ≠ ":") (hrel : isabs (stripColon s) = false)
+    (hall : ∀ q ∈ e.tzpaths, SearchSkip e (stripColon s) q) (hv : e.vendored (stripColon s) = false)
+    (hd : hasDigit (stripColon s) = true) (hok : e.tzstrOk (stripColon s) = true) :
+    resolve e name = .ok (.tzstr (stripColon s)) := by
+  rw [resolve_named h h1 h2, resolve_fallthrough hrel hall, (fallback_order (stripColon s)).2.1 hv hd hok]
+
+/-- `GMT` / `UTC` without a loadable file of that name and without a vendored entry give the constant `tz.UTC` -/
+theorem resolve_utc_constant {name : Option String} {s : String} (h : effectiveName e name = some s)
+    (h1 : s ≠ "") (h2 : s ≠ ":") (hn : stripColon s = "GMT" ∨ stripColon s = "UTC")
+    (hall : ∀ q ∈ e.tzpaths, SearchSkip e (stripColon s) q) (hv : e.vendored (stripColon s) = false) :
+    resolve e name = .ok .utc := by
+  have hrel : isabs (stripColon s) = false := by rcases hn with hn | hn <;> rw [hn] <;> decide
+  have hd : hasDigit (stripColon s) = false := by rcases hn with hn | hn <;> rw [hn] <;> decide
+  rw [resolve_named h h1 h2, resolve_fallthrough hrel hall, (fallback_order (stripColon s)).2.2.2.1 hv hd hn]
+
 /-- what yields `None`: an absolute path that is not a file; or a relative name found (loadable)
 under no search directory, not vendored, and either containing a digit but not a valid TZ string,
 or containing none and being neither GMT/UTC nor in `time.tzname` -/
